@@ -19,7 +19,7 @@ import io
 import itertools
 
 PROP = 'C15'
-TARGETS = ['T15a', 'T15b', 'T15c', 'T15d', 'T15e', 'T15f', 'T15g', 'T15h', 'T15i', 'T15j']
+TARGETS = ['T15a', 'T15b', 'T15c', 'T15d', 'T15e', 'T15f', 'T15g', 'T15h', 'T15i', 'T15j', 'T15k']
 LEAN_MODULES = ['HdVerif.Props.C15']
 MODEL_MODULES = ['HdVerif.Model.SREvidence', 'HdVerif.Model.SRDocument', 'HdVerif.Model.SRTree']
 NAMESPACE = 'HdVerif.C15'
@@ -764,6 +764,17 @@ def _check_doc(ctx, c, reqs, pending):
     if sorted(gc) != sorted(current):
         ctx.fail(case, {'what': 'get_evidence(current_procedure_only=True) is not the referenced instances', 'got': sorted(gc),
                         'want': sorted(current)}, site='get_evidence')
+    # several calls on ONE document: the same question again, and after the other question, gets the same answer; reading
+    # leaves nothing behind on the object
+    keys0 = set(vars(doc))
+    again = ([tuple(map(str, t)) for t in doc.get_evidence(current_procedure_only=True)], [tuple(map(str, t)) for t in doc.get_evidence()],
+             [tuple(map(str, t)) for t in doc.get_evidence()], [tuple(map(str, t)) for t in doc.get_evidence(current_procedure_only=True)])
+    if again != (gc, ge, ge, gc):
+        ctx.fail(case, {'what': 'get_evidence() answers differently when asked again / after get_evidence(current_procedure_only=True)',
+                        'first': [len(ge), len(gc)], 'again': [len(x) for x in again]}, site='get_evidence/repeat')
+    if set(vars(doc)) != keys0:
+        ctx.fail(case, {'what': 'reading the evidence left state behind on the document object',
+                        'new_attributes': sorted(set(vars(doc)) - keys0)}, site='get_evidence/repeat')
     gs = [tuple(map(str, t)) for t in doc.get_evidence_series()]
     if sorted(gs) != sorted({(a, b) for a, b, _, _ in want_all}) or len(gs) != len(set(gs)):
         ctx.fail(case, 'get_evidence_series() is not the set of supplied (study, series), once each', site='get_evidence_series')
@@ -875,6 +886,15 @@ def _check_doc(ctx, c, reqs, pending):
         ctx.fail(case, 'get_evidence() differs after write/read', site='srread/evidence')
     _check_partition(ctx, case, 'srread/evidence', flatten_seq(doc2.get('CurrentRequestedProcedureEvidenceSequence', [])),
                      flatten_seq(doc2.get('PertinentOtherEvidenceSequence', [])), current, other, f['record_evidence'])
+    # ---- every class's from_dataset: the class that wrote the document accepts it, the other two refuse it
+    for other in SR_CLASSES:
+        if other == c['cls']:
+            continue
+        fo = _call(getattr(hd.sr, other).from_dataset, pydicom.dcmread(io.BytesIO(blob)))
+        ctx.case(path='from_dataset(other class)', parse_class=f'{c["cls"]} as {other}', parse_outcome=('accepted' if fo[0] == 'ok' else fo[2].split(':')[0]))
+        if fo[0] == 'ok':
+            ctx.fail(dict(case, parsed_as=other), f'{other}.from_dataset accepted a {c["cls"]} document (returned a {type(fo[1]).__name__})',
+                     site='from_dataset/class')
     # ---- from_dataset(copy=True) must leave the parsed-from data set alone and expose an equal tree
     raw = pydicom.dcmread(io.BytesIO(blob))
     raw_before = canon(raw)
